@@ -25,12 +25,14 @@ type c08Params struct {
 	Flow  string   `json:"flow"` // ecc | ecc-cr | ecdhe | resumed  (client) ; ecc | ecc-auth | ecc-auth-nocert | ecdhe | resumed (server)
 	Seq   []string `json:"seq"`  // kinds the scripted peer sends, in order
 	Edit  string   `json:"edit"`
+	// Pack: consecutive handshake messages the peer sends without reading in between share one record
+	Pack bool `json:"pack,omitempty"`
 }
 
 func (c08) ID() string    { return "C08" }
 func (c08) Level() string { return "exploration" }
 func (c08) Rule() string {
-	return "for every legal flow (client role: ECC, ECC with CertificateRequest, ECDHE, resumed; server role: ECC, ECC with client certificate, ECC with empty certificate, ECDHE, resumed) on both stacks: the unedited flow (control, must complete) and ALL single edits - omit, repeat, transpose adjacent, insert any kind of the alphabet (all handshake kinds, ChangeCipherSpec, warning alert, application data with and without payload) at any position - plus runs of 16 and 17 warning alerts; thorough adds seeded double and triple edits. The scripted peer keeps transcript and keys consistent with what it sent. Oracle: the real endpoint completes iff a prefix of the received kinds (warning alerts within the tolerance removed) is exactly a legal flow. distinct = distinct (stack, role, flow, sequence); non-trivial = the edited part was delivered before the endpoint finished"
+	return "for every legal flow (client role: ECC, ECC with CertificateRequest, ECDHE, resumed; server role: ECC, ECC with client certificate, ECC with empty certificate, ECDHE, resumed) on both stacks: the unedited flow (control, must complete) and ALL single edits - omit, repeat, transpose adjacent, insert any kind of the alphabet (all handshake kinds, ChangeCipherSpec, warning alert, application data with and without payload) at any position - plus runs of 16 and 17 warning alerts; every sequence also with consecutive handshake messages packed into one record; thorough adds seeded double and triple edits. The scripted peer keeps transcript and keys consistent with what it sent. Oracle: the real endpoint completes iff a prefix of the received kinds (warning alerts within the tolerance removed) is exactly a legal flow. distinct = distinct (stack, role, flow, sequence); non-trivial = the edited part was delivered before the endpoint finished"
 }
 func (c08) Components() (real, stub []string) {
 	return []string{"tlcp/dtlcp client and server state machines (instrumented)", "session cache (resumed flows)"},
@@ -125,6 +127,12 @@ func c08List(tier string) []c08Params {
 					}
 				}
 			}
+		}
+		// every sequence once more with consecutive handshake messages packed into one record (legal framing:
+		// what completes must be the same)
+		for _, q := range append([]c08Params(nil), out...) {
+			q.Pack = true
+			out = append(out, q)
 		}
 		c08Lists[ti] = out
 	})
@@ -262,6 +270,9 @@ func (c08) Run(c *Case, src *vs.Src) *Result {
 				}
 				ops = append(ops, "rFLIGHT")
 			}
+			if p.Pack {
+				ops = c08PackRuns(ops)
+			}
 			po := pr.Run(o, ops)
 			if po.Err != nil {
 				out.peerErr = fmt.Sprintf("%s: %v", po.StoppedAt, po.Err)
@@ -293,7 +304,10 @@ func (c08) Run(c *Case, src *vs.Src) *Result {
 	} else {
 		o = run(0, p.Seq, nil, nil)
 	}
-	r.Key = hashKey(p.Stack, p.Role, p.Flow, strings.Join(p.Seq, ","))
+	r.Key = hashKey(p.Stack, p.Role, p.Flow, strings.Join(p.Seq, ","), p.Pack)
+	if p.Pack {
+		sigp += " packed"
+	}
 	// a datagram endpoint whose peer falls silent keeps waiting (or retransmitting): "not completed"
 	if o.reason != vs.Done && !((o.reason == vs.TimeUp || o.reason == vs.Deadlock) && p.Stack == DTLCP) {
 		r.Violate("not-ended", sigp+" not-ended "+o.reason, "edit %q: run ended with %q, unfinished %v; real endpoint err=%v; peer sent %v", p.Edit, o.reason, o.unf, o.err, o.sent)
@@ -380,4 +394,32 @@ func editClass(e string) string {
 		}
 	}
 	return string(out)
+}
+
+// c08PackRuns wraps every run of two or more consecutive handshake-message sends in "[" "]".
+func c08PackRuns(ops []string) []string {
+	isHS := func(k string) bool {
+		switch k {
+		case "CH", "SH", "CERT", "SKX", "CR", "SHD", "CKE", "CV", "FIN":
+			return true
+		}
+		return false
+	}
+	var out []string
+	for i := 0; i < len(ops); {
+		j := i
+		for j < len(ops) && isHS(ops[j]) {
+			j++
+		}
+		if j-i >= 2 {
+			out = append(out, "[")
+			out = append(out, ops[i:j]...)
+			out = append(out, "]")
+			i = j
+			continue
+		}
+		out = append(out, ops[i])
+		i++
+	}
+	return out
 }
